@@ -62,6 +62,9 @@ struct LoopCfg {
 	/// with index_loop: `for PAT in X` over an owned Vec `X` of Copy items: the element is bound by copy (`let PAT = X[i];`)
 	#[serde(default)]
 	by_copy: bool,
+	/// with index_loop: `for PAT in X` over an owned Vec `X` whose elements the body moves out: bound as `let PAT = vf_clone(&X[i]);`
+	#[serde(default)]
+	by_clone: bool,
 	/// do not fail (exit 2) when the function no longer has this loop
 	#[serde(default)]
 	optional: bool,
@@ -773,7 +776,7 @@ impl<'ast, 'c> Visit<'ast> for FnVisitor<'c> {
 				syn::Expr::MethodCall(mc) if mc.method == "iter" && mc.args.is_empty() => br(mc.receiver.span()),
 				// `for PAT in X` over an owned Vec named by a path: the index loop binds `&X[i]`; accepted only because the
 				// generated text must still type-check, i.e. the body only reads the element
-				syn::Expr::Path(_) if lc.by_value_as_ref || lc.by_copy || lc.map_entries => br(fl.expr.span()),
+				syn::Expr::Path(_) if lc.by_value_as_ref || lc.by_copy || lc.by_clone || lc.map_entries => br(fl.expr.span()),
 				_ => die(&format!("{}: loop {}: index_loop needs `for PAT in X.iter()`", self.fname, ord)),
 			};
 			let (ps, pe) = br(fl.pat.span());
@@ -798,7 +801,9 @@ impl<'ast, 'c> Visit<'ast> for FnVisitor<'c> {
 			let recv_text = if lc.map_entries { ents.clone() } else { recv_text };
 			let mut inv = vec![Clause::Plain(format!("{} <= {}.len()", iv, recv_text))];
 			inv.extend(lc.invariant.iter().cloned());
-			let mut parts = self.clause_parts("invariant", "invariant", &inv, "        ");
+			let mut parts = self.clause_parts("invariant_except_break", "invariant", &lc.invariant_except_break, "        ");
+			parts.extend(self.clause_parts("invariant", "invariant", &inv, "        "));
+			parts.extend(self.clause_parts("ensures", "invariant", &lc.ensures, "        "));
 			let d = lc.decreases.clone().unwrap_or(format!("{}.len() - {}", recv_text, iv));
 			parts.push(Part::Text(format!("\n        decreases {},\n    ", d)));
 			self.push(bs, bs, parts, "A2");
@@ -806,6 +811,11 @@ impl<'ast, 'c> Visit<'ast> for FnVisitor<'c> {
 				self.push(bs + 1, bs + 1, vec![
 					Part::Text("\nlet ".to_string()), Part::Src(ps, pe),
 					Part::Text(format!(" = {}[{}]; {} = {} + 1;\n", ents, iv, iv, iv)),
+				], "L20");
+			} else if lc.by_clone {
+				self.push(bs + 1, bs + 1, vec![
+					Part::Text("\nlet ".to_string()), Part::Src(ps, pe), Part::Text(" = vf_clone(&".to_string()), Part::Src(recv.0, recv.1),
+					Part::Text(format!("[{}]); {} = {} + 1;\n", iv, iv, iv)),
 				], "L20");
 			} else if lc.by_copy {
 				self.push(bs + 1, bs + 1, vec![
